@@ -338,8 +338,11 @@ class Flow:
                 sub = fields
             if d["kind"] == "call":
                 t = d["term"]
-                if ((not self.only_extra and is_passthrough(t)) or self.extra_pass(t)) and t["args"]:
-                    a0 = t["args"][0]
+                ep = self.extra_pass(t)
+                if ((not self.only_extra and is_passthrough(t)) or ep) and t["args"]:
+                    # a pass-through predicate may name the argument the value comes in by (a method of a state object takes it second)
+                    ai = ep if (isinstance(ep, int) and not isinstance(ep, bool) and ep < len(t["args"])) else 0
+                    a0 = t["args"][ai]
                     if a0["k"] in ("copy", "move"):
                         out |= self._orig(a0["pl"]["l"], tuple(place_fields(a0["pl"])) + sub, seen)
                         continue
